@@ -8,7 +8,7 @@ EOS = "▪"
 RULE = (
     "case = (generated grammar, object kind in {Earley, rescaled Earley, IncrementalCKY, EarleyLM, rescaled EarleyLM, "
     "CKYLM, BoolCFGLM/earley, BoolCFGLM/cky}, a history of 20-60 operations (p_next / next-token weights / string weight / "
-    "chain-rule call / chart / clear_cache / an injected fault: a cold 150-400-token query interrupted by a lowered recursion limit / a transformation or derived-object construction applied to every reachable grammar) over nested, sibling and repeated prefixes of a common string). After every "
+    "chain-rule call / chart / clear_cache / an injected fault: a cold 25-110-token query interrupted by a lowered recursion limit, followed by queries on prefixes of that context / a transformation or derived-object construction applied to every reachable grammar) over nested, sibling and repeated prefixes of a common string). After every "
     "query the answer of the used object is compared, as a function over the vocabulary (missing = zero, tol 1e-9), with "
     "the answer of a fresh object built from a freshly built equal grammar; before/after every operation the rules "
     "(identity and content), vocabulary, nonterminal set and start symbol of every grammar reachable from the object are "
@@ -93,7 +93,15 @@ def gen_case(rng, spec):
             ops.append(["transform", rng.choice(TRANSFORMS)])
         elif r < 0.96:
             # a cold query on a long context that is made to fail half-way (low recursion limit)
-            ops.append(["fault", [rng.choice(V) for _ in range(rng.randint(150, 400))]])
+            cky_kind = kind in ("IncrementalCKY", "CKYLM", "BoolCFGLM/cky")  # cubic in the context length
+            long_ctx = list(rng.choice(pool)) + [rng.choice(V) for _ in range(rng.randint(25, 40) if cky_kind else rng.randint(60, 110))]
+            ops.append(["fault", long_ctx])
+            # ... and then queries on prefixes of that context, whose cache entries the interrupted query may have touched
+            ops.append(["next", long_ctx[: -rng.randint(1, 30)]])
+            if rng.random() < 0.5:
+                ops.append(["weight", long_ctx[: -rng.randint(1, 30)]])
+            if rng.random() < 0.5:
+                ops.append(["next", long_ctx])
         elif ops:
             ops.append(rng.choice(ops))
     return {"g": {k: g[k] for k in ("S", "V", "rules")}, "kind": kind, "ops": ops}
@@ -280,7 +288,7 @@ def run_case(case, ctx):
             ctx.shape["op:fault"] += 1
             old_limit = sys.getrecursionlimit()
             depth = len(__import__("inspect").stack(0))
-            sys.setrecursionlimit(depth + 120)
+            sys.setrecursionlimit(depth + min(70, len(op[1])))
             try:
                 query(kind, obj, "next", op[1], V)
                 ctx.events["fault.query-survived"] += 1
